@@ -128,7 +128,7 @@ DoStop(d) ==
   /\ dev[d].open /\ dev[d].state = RUNNING
   /\ LET r == RawStop(Machine(os, <<>>), d, dev[d])
          m == StopCheck(r[1], d, r[2]) IN
-     Commit(m, d, [r[2] EXCEPT !.state = ARMED], [gh[d] EXCEPT !.clean = FALSE], Label("stop", d, 0, <<>>))
+     Commit(m, d, [r[2] EXCEPT !.state = ARMED], [gh[d] EXCEPT !.clean = FALSE, !.app = <<>>], Label("stop", d, 0, <<>>))
   /\ UNCHANGED used
 
 \* storage_close: storage_stop, state Closed, driver close -> raw_destroy: raw_stop again, free
